@@ -103,6 +103,7 @@ type Enc struct {
 	onceVals    map[*Term]*Term
 	yieldParam  *Term  // the callback parameter of a unit under the `yields` protocol (nil: none)
 	yieldName   string
+	mapEnumDone map[*Term]bool
 	yieldType   types.Type
 	yieldEnv    func(st *State) *evalEnv // the unit's own parameters over a given state (for its `iterates` summary)
 	yieldCells  map[*Term]bool
@@ -1169,7 +1170,7 @@ func (e *Enc) cutLoop(fr *Frame, head *ssa.BasicBlock, st *State) {
 	}
 	for b := range loopBody(head) {
 		for _, in := range b.Instrs {
-			if nx, ok := in.(*ssa.Next); ok && nx.IsString {
+			if nx, ok := in.(*ssa.Next); ok && (nx.IsString || e.completeMapRange(nx)) {
 				c := e.tb.Fresh("rangecount", "Int")
 				e.assume(e.tb.True(), e.tb.Ge(c, e.tb.Int(0)))
 				fr.rangeCount[nx.Iter.(*ssa.Range)] = c
@@ -1956,4 +1957,21 @@ func (e *Enc) addProps(q *Query, con *FuncContract, extra []string) {
 		}
 	}
 	e.qProps[q.Name] = ps
+}
+
+// completeMapRange: a range over a Go map in a unit that opted into the complete-iteration model.
+func (e *Enc) completeMapRange(nx *ssa.Next) bool {
+	if nx.IsString {
+		return false
+	}
+	con := e.topCon()
+	if con == nil || con.opts["map-ranges-complete"] != "true" {
+		return false
+	}
+	rng, ok := nx.Iter.(*ssa.Range)
+	if !ok {
+		return false
+	}
+	_, isMap := rng.X.Type().Underlying().(*types.Map)
+	return isMap
 }
